@@ -92,7 +92,8 @@ def run_history(h, props=None):
             if len(out) > 3:
                 break
     else:
-        _, write_count, counts = h
+        _, write_count, counts = h[:3]
+        fstart, fend, ffreq = h[3] if len(h) > 3 else (0, None, 1)
         m = Model(seed=1)
         fd, path = tempfile.mkstemp(prefix='verif-c17-', suffix='.txt')
         os.close(fd)
@@ -107,13 +108,24 @@ def run_history(h, props=None):
                     n = plan[self.model.systems.timestep] if self.model.systems.timestep < len(plan) else 0
                     for i in range(n):
                         self.records.append(f't{self.model.systems.timestep}.r{i}\n')
-            fc = Lines('fc', m, path, write_count=write_count)
+            fc = Lines('fc', m, path, write_count=write_count, start=fstart, end=BIG if fend is None else fend,
+                       frequency=ffreq)
             m.systems.add_system(fc)
             collected = []
             ncoll = 0
+            done_counts = []
             for t, n in enumerate(counts):
                 m.execute()
+                due = fstart <= t <= (BIG if fend is None else fend) and (t - fstart) % ffreq == 0
+                if not due:
+                    text = open(path).read() if os.path.exists(path) else ''
+                    if text + ''.join(fc.records) != ''.join(collected):
+                        out.append(('C17', f'window {(fstart, fend, ffreq)}: the collector acted at timestep {t} outside its '
+                                           f'window: file={text!r:.80} held={"".join(fc.records)!r:.80}'))
+                        break
+                    continue
                 collected += [f't{t}.r{i}\n' for i in range(n)]
+                done_counts.append(n)
                 ncoll += 1
                 text = open(path).read() if os.path.exists(path) else ''
                 held = ''.join(fc.records)
@@ -128,7 +140,7 @@ def run_history(h, props=None):
                     if text != ''.join(collected):
                         out.append(('C17', f'{w}: after the flush the file must hold everything collected'))
                 else:
-                    whole = ''.join(collected[:sum(counts[:ncoll - (ncoll % (write_count + 1))])])
+                    whole = ''.join(collected[:sum(done_counts[:ncoll - (ncoll % (write_count + 1))])])
                     if text != whole:
                         out.append(('C17', f'{w}: the file is not a whole-flush prefix: {text!r:.80} expected {whole!r:.80}'))
                 if len(out) > 3:
@@ -151,9 +163,14 @@ def histories(seed, budget, prop='C17'):
     for wc in (0, 1, 2, 3):
         for counts in ([1] * 7, [0, 1, 0, 2, 1, 0, 0, 3], [2, 0, 0, 0, 1], [0, 0, 0, 0], [1, 0, 1, 0, 1, 0, 1]):
             yield ('file', wc, counts)
+    for win in ((1, 4, 1), (0, 0, 1), (2, 7, 2), (3, 2, 1), (1, None, 3)):
+        for wc in (0, 2):
+            yield ('file', wc, [1, 2, 0, 1, 1, 3, 1, 0, 2, 1], win)
     for _ in range(budget):
         if rng.random() < 0.5:
-            yield ('file', rng.randint(0, 4), [rng.choice([0, 0, 1, 1, 2, 3]) for _ in range(rng.randint(1, 12))])
+            yield ('file', rng.randint(0, 4), [rng.choice([0, 0, 1, 1, 2, 3]) for _ in range(rng.randint(1, 12))],
+                   rng.choice([(0, None, 1), (0, None, 1), (rng.randint(0, 3), rng.choice([None, rng.randint(0, 8)]),
+                                                            rng.randint(1, 3))]))
         else:
             ops = []
             for _ in range(rng.randint(3, 14)):
